@@ -86,7 +86,16 @@ if sys.platform.startswith("linux") or sys.platform == "darwin":
                 fcntl.flock(self._lock_file_fd, fcntl.LOCK_EX | fcntl.LOCK_NB)
             except BlockingIOError:
                 logger.notice("waiting for flock…")
-                await asyncio.to_thread(fcntl.flock, self._lock_file_fd, fcntl.LOCK_EX)
+                # Do not block in a worker thread: a thread stuck in flock(2) can not be
+                # cancelled and `asyncio.run()` joins it, so Ctrl-C would only take effect
+                # once the lock has been acquired.
+                while True:
+                    await asyncio.sleep(0.1)
+                    try:
+                        fcntl.flock(self._lock_file_fd, fcntl.LOCK_EX | fcntl.LOCK_NB)
+                        break
+                    except BlockingIOError:
+                        continue
             logger.info("Acquired lock. Continuing…")
 
         def _release_flock(self: Flockable) -> None:
